@@ -114,6 +114,8 @@ def expr_sites(rng, E):
         ('comment-interp', '<!-- c ${%s} d -->' % E),
         ('cdata-interp', '<![CDATA[ c ${%s} d ]]>' % E),
         ('data-attribute', '<p data-tal-content="%s">x</p>' % E),
+        ('pi-interp', '<p><?php echo ${%s} ?></p>' % E),
+        ('pi-interp-second', '<p>\n <?xml-stylesheet href="${%s}" type="${%s}"?></p>' % (good().replace('"', "'"), E)),
     ]
     kind, body = rng.choice(sites)
     tail = rng.choice(['', '\n', '<p>after</p>'])
@@ -566,7 +568,7 @@ def smoke_gen(rng, depth):
     kids = ''
     for _ in range(rng.randint(0, 3)):
         kids += smoke_gen(rng, depth + 1) if depth < 3 and rng.random() < .55 else rng.choice(
-            ['txt ', '${t} ', '\n  ', '${c} x', '<!-- ${t} -->', '<![CDATA[${t}]]>', '<?python q = 1 ?>', '<!--! x -->', '$${t}',
+            ['txt ', '${t} ', '\n  ', '${c} x', '<!-- ${t} -->', '<![CDATA[${t}]]>', '<?python q = 1 ?>', '<?php ${t} and ${c} ?>', '<?x-y ${t}?>', '<!--! x -->', '$${t}',
              '&amp;${structure: t}', '<br/>', '<input checked />'])
     tag = rng.choice(['div', 'p', 'tal:block', 'metal:block', 'span'])
     return '<%s %s>%s</%s>' % (tag, ' '.join(attrs), kids, tag)
